@@ -174,7 +174,7 @@ PassBases == <<
   Pass("disjunction_with_constant_to_default", O(<<>>))
 >>
 PassAlphabet == <<S("x"), S(""), S("."), S("cfgt."), S(".Root"), S("cfgt.Root"), S("cfgt.Nowhere"), S("nopkg.Root"), S("cfgt.Root.name"),
-                  S("cfgt.Root.nofield"), S("cfgt.Root.du"), S("cfgt.Root.kids"), S("cfgt.Color"), S("cfgt.Color.x"), S("cfgt.Alias.cid"), S("Root"), S("cfgt.Root.name.more"),
+                  S("cfgt.Root.nofield"), S("cfgt.Root.du"), S("cfgt.Root.kids"), S("cfgt.Color"), S("cfgt.Color.x"), S("cfgt.Alias.cid"), S("cfgt.root"), S("CFGT.Root"), S("cfgt.ROOT.NAME"), S("Root"), S("cfgt.Root.name.more"),
                   JInt(1), JBool(TRUE), JNull, A(<<>>), O(<<>>), A(<<S("")>>), A(<<S("cfgt.Nowhere.f")>>), A(<<JNull>>),
                   O(<<P("kind", S("struct"))>>), O(<<P("kind", S("array"))>>), O(<<P("kind", S("map"))>>), O(<<P("kind", S("ref"))>>),
                   O(<<P("kind", S("enum")), P("enum", O(<<P("values", A(<<>>))>>))>>), O(<<P("kind", S("disjunction"))>>),
@@ -231,7 +231,7 @@ VeneerBases == <<
 >>
 VeneerAlphabet == <<S("x"), S(""), S("."), S("Root."), S(".name"), S("Root"), S("Child"), S("Nowhere"), S("Root.name"), S("Root.on"), S("Root.u"),
                     S("Root.du"), S("Root.tags"), S("Root.labels"), S("Root.inl"), S("Root.kids"), S("Root.next"), S("Root.id"), S("Root.nowhere"),
-                    S("Nowhere.x"), S("name.x"), S("kids.cid"), S("alias.cid"), S("go"), S("cfgo"), JInt(0), JInt(1), JInt(5), JInt(-1), JBool(TRUE), JNull, A(<<>>), O(<<>>),
+                    S("Nowhere.x"), S("name.x"), S("kids.cid"), S("alias.cid"), S("root.name"), S("ROOT.Name"), S("go"), S("cfgo"), JInt(0), JInt(1), JInt(5), JInt(-1), JBool(TRUE), JNull, A(<<>>), O(<<>>),
                     A(<<S("")>>), A(<<S("nowhere")>>), A(<<S("z"), S("z")>>), A(<<JNull>>), O(<<P("x", S("y"))>>)>>
 
 (* ---- sequences of TWO option rules on the same option (a rule changes the option's arguments, the next one meets the result) *)
